@@ -655,6 +655,26 @@ func GenConfig(t *rapid.T, label string, kind Kind, plan Plan) *Config {
 		}
 	}
 	c.ExtMode = ExtMode(rapid.IntRange(0, 2).Draw(t, label+".extmode"))
+	if kind == Raw {
+		// the Custom hooks exist on ws.Upgrader only
+		switch rapid.IntRange(0, 9).Draw(t, label+".protocustom") {
+		case 0, 1, 2:
+			c.ProtoCustom = ProtoCustomLast
+		case 3:
+			c.ProtoCustom = ProtoCustomFixed
+		}
+		if c.ProtoCustom != ProtoCustomNone {
+			for _, p := range protoVocab {
+				if rapid.IntRange(0, 1).Draw(t, label+".cacc."+p) == 0 {
+					c.CustomProtocols = append(c.CustomProtocols, p)
+				}
+			}
+		}
+		if rapid.IntRange(0, 3).Draw(t, label+".extcustom") == 0 {
+			c.ExtMode = ExtCustom
+			c.ExtSelectorAlso = rapid.Bool().Draw(t, label+".extselalso")
+		}
+	}
 	if plan.Bad[CNegotiate] {
 		c.ExtMode = ExtNegotiate
 	}
